@@ -197,12 +197,59 @@ class C08(Prop):
         import bitcoin.core.script as SC
         self.SC = SC
 
+    _codec = None
+
     @property
     def BN(self):
-        """the number codec lives in a private module: reached lazily, inside guarded(), so that a tree without
-        it makes these auxiliary cases unobservable instead of breaking the tie"""
-        import bitcoin.core._bignum as BN
-        return BN
+        """The module that defines the number codec `bn2vch` / `vch2bn` (the names the property anchors).  It is
+        looked up by these function names: first where the library keeps it today, otherwise in whichever module of
+        the bitcoin.core package defines both (a moved or renamed module keeps the codec observable).  Reached
+        lazily inside guarded(): if the names are gone altogether the direct cases are unobservable and the codec is
+        still observed through the builder (encode) and the interpreter's arithmetic (decode, c08.numeval)."""
+        if self._codec is not None:
+            return self._codec
+        import importlib
+        import pkgutil
+        import bitcoin.core
+        names = ['bitcoin.core._bignum'] + ['bitcoin.core.' + m.name for m in pkgutil.iter_modules(bitcoin.core.__path__)
+                                            if not m.ispkg]
+        for name in names:
+            try:
+                mod = importlib.import_module(name)
+            except Exception:  # noqa: BLE001
+                continue
+            if callable(getattr(mod, 'bn2vch', None)) and callable(getattr(mod, 'vch2bn', None)):
+                self._codec = mod
+                return mod
+        raise ImportError('no module of bitcoin.core defines bn2vch and vch2bn')
+
+    @staticmethod
+    def BN_free_encode(z):
+        """minimal sign-magnitude little-endian bytes of z, computed here (generator side, independent of the library)"""
+        if z == 0:
+            return b''
+        m = abs(z)
+        out = bytearray(m.to_bytes((m.bit_length() + 7) // 8, 'little'))
+        if out[-1] & 0x80:
+            out.append(0x80 if z < 0 else 0)
+        elif z < 0:
+            out[-1] |= 0x80
+        return bytes(out)
+
+    NUMEVAL_OPS = {'1add': 0x8b, 'negate': 0x8f, '0notequal': 0x92, 'add': 0x93, 'sub': 0x94}
+
+    def numeval(self, what, a, b):
+        """<a> [<b>] OP through the public interpreter; the item left on the stack"""
+        import bitcoin.core
+        import bitcoin.core.scripteval as SE
+        SC = self.SC
+        items = [a] if what in ('1add', 'negate', '0notequal') else [a, b]
+        script = SC.CScript(b''.join(SC.CScriptOp.encode_op_pushdata(x) for x in items) + bytes([self.NUMEVAL_OPS[what]]))
+        stack = []
+        SE.EvalScript(stack, script, bitcoin.core.CTransaction(), 0, flags=())
+        if len(stack) != 1:
+            return 'stack:%r' % (stack,)
+        return bytes(stack[0]).hex()
 
     # ---- token text <-> Python objects ----------------------------------------------------------
     def tok_obj(self, t):
@@ -492,6 +539,25 @@ class C08(Prop):
         SIG = (0xac, 0xad, 0xae, 0xaf)
         out = [bytes([a, b]) + t for a in list(range(0x4f, 0x62)) + [0, 0xff, 0xae] for b in SIG
                for t in (b'', b'\x05ab', b'\x4c', b'\x4d\x01')]
+        # OP_n, then EVERY push form (complete, empty, truncated), then every sigop opcode: the push must replace
+        # OP_n as the remembered opcode whatever its form; also the push before OP_n, and no OP_n at all
+        pushes = [bytes([k]) + bytes(k) for k in range(0, 0x4c)]
+        pushes += [b'\x4c' + bytes([k]) + b'\xaa' * k for k in (0, 1, 0x4b, 0x4c, 0xff)]
+        pushes += [b'\x4d' + k.to_bytes(2, 'little') + b'\xaa' * k for k in (0, 1, 0xff, 0x100)]
+        pushes += [b'\x4e' + k.to_bytes(4, 'little') + b'\xaa' * k for k in (0, 1, 0x100, 0x10000)]
+        trunc = [b'\x05ab', b'\x4c', b'\x4c\x05ab', b'\x4d\x01', b'\x4d\x05\x00ab', b'\x4e\x01\x00\x00',
+                 b'\x4e\x05\x00\x00\x00ab', b'\x4b']
+        for opn in (0x51, 0x53, 0x60):
+            for sg in SIG:
+                for p in pushes:
+                    out.append(bytes([opn]) + p + bytes([sg]))
+                    out.append(p + bytes([opn, sg]))
+                for p in trunc:
+                    out.append(bytes([opn]) + p + bytes([sg]))
+                    out.append(bytes([opn, sg]) + p)
+        for sg in SIG:
+            for p in pushes:
+                out.append(p + bytes([sg]))
         for _ in range(count):
             parts = []
             for _ in range(rng.randrange(1, 9)):
@@ -729,6 +795,29 @@ class C08(Prop):
             if rng.random() < 0.1:
                 m = m[:rng.randrange(0, 4)]
             yield mk('c08.mpi2bn', m.hex(), tag='mpi', ood=True)               # MPI is an internal route
+        # the codec through the public interpreter (decode the operands, encode the result): every string of
+        # <= 2 bytes as operand of the unary ops, boundary pairs for the binary ones, random 3- and 4-byte numbers
+        def num_ood(*xs):
+            return any(len(x) > 4 or not vch_minimal(x) for x in xs)
+        short = (bytes(t) for n in (0, 1, 2) for t in itertools.product(range(256), repeat=n))
+        for j, s in enumerate(part(short)):
+            yield mk('c08.numeval', ('1add', 'negate', '0notequal')[j % 3], s.hex(), '', tag='numeval', ood=num_ood(s))
+        edge4 = [b'', b'\x01', b'\x81', b'\x7f', b'\xff', b'\x80\x00', b'\x80\x80', b'\xff\x7f', b'\xff\xff',
+                 b'\x00\x80\x00', b'\xff\xff\x7f', b'\xff\xff\xff', b'\x00\x00\x80\x00', b'\xff\xff\xff\x7f',
+                 b'\xff\xff\xff\xff', b'\x00\x00\x00\x80\x00', b'\x00', b'\x80', b'\x01\x00', b'\x01\x80',
+                 b'\x01\x02\x03\x04\x05\x06\x07\x08\x09']
+        pairs = [(w, x, y) for w in ('add', 'sub') for x in edge4 for y in edge4] + \
+                [(w, x, b'') for w in ('1add', 'negate', '0notequal') for x in edge4]
+        for w, x, y in part(pairs):
+            yield mk('c08.numeval', w, x.hex(), y.hex(), tag='numeval', ood=num_ood(x, y) if w in ('add', 'sub') else num_ood(x))
+        for j in range(share(8000 if big else 1200)):
+            x = self.BN_free_encode(rng.randrange(-(1 << 31) + 1, 1 << 31) if rng.random() < 0.7 else rng.randrange(-70000, 70000))
+            y = self.BN_free_encode(rng.randrange(-(1 << 31) + 1, 1 << 31) if rng.random() < 0.7 else rng.randrange(-300, 300))
+            w = rng.choice(('add', 'sub', '1add', 'negate', '0notequal'))
+            if w in ('add', 'sub'):
+                yield mk('c08.numeval', w, x.hex(), y.hex(), tag='numeval')
+            else:
+                yield mk('c08.numeval', w, x.hex(), '', tag='numeval')
         # vch2bn on arbitrary strings: every string of length <= 2, then random with 00/80 tails
         short = (bytes(t) for n in (0, 1, 2) for t in itertools.product(range(256), repeat=n))
         for s in part(short):
@@ -898,6 +987,8 @@ class C08(Prop):
                 v = self.BN.mpi2bn(bytes.fromhex(a[0]))
                 return 'none' if v is None else str(v)
             return guarded(f)
+        if op == 'c08.numeval':
+            return guarded(lambda: self.numeval(a[0], bytes.fromhex(a[1]), bytes.fromhex(a[2])))
         if op == 'c08.bn2vch':
             return guarded(lambda: bytes(self.BN.bn2vch(int(a[0]))).hex())
         if op == 'c08.vch2bn':
